@@ -165,10 +165,11 @@ def run(ctx: Ctx):
     ctx.assumptions = ["records are compared as text fields parsed independently of src/parsers",
                        "nothing beyond C05 is demanded of 'best' (the property text does not)"]
     res, lines, out = file_common.explore(ctx, 24 if quick else 400, salt=8,
-                                          n_qry=18,
+                                          n_qry=20,
                                           kinds=["split", "swapped", "dup", "indel", "chimeric", "partial", "split",
                                                  "dropped", "indel", "split", "stretched", "mirror", "endstub", "endstub",
-                                                 "splitindel", "splitindel", "splitindelrev", "splitindelrev"])
+                                                 "splitindel", "splitindel", "splitindelrev", "splitindelrev",
+                                                 "flankdup", "flankdup"])      # two second-pass records of one query, equally confident
     joins = 0
     for rr, ln in zip(res, lines):
         if ln is None:
